@@ -62,17 +62,18 @@ static void min_ops(Case &c, const std::function<bool(const Case &)> &still) {
     }
 }
 
-static Verdict check_c20(const Case &c) {
+struct Out20 { bool ok = true; std::string key, msg; bool changed = false, during_call = false; int sets = 0, calls = 0; };
+
+// runs in a fresh child process: the library keeps the control object in a function-local static, so a history must start
+// from process start to be a pure function of the case
+static Out20 body_c20(const Case &c) {
     typedef BG<double> B;
-    Stats &S = stats();
+    Out20 o;
     std::string base = "C20/set_global_tbb_concurrency/history/";
-    const std::size_t hw_default = tbb::global_control::active_value(tbb::global_control::max_allowed_parallelism);
-    (void) hw_default;
+    auto fail = [&](const std::string &k, const std::string &m) { o.ok = false; o.key = base + k; o.msg = m; return o; };
     B bg(c.g);
     std::size_t current = 0;   // 0 = never set in this history
-    bool changed = false, during_call = false;
     long prev = -1;
-    int sets = 0, calls = 0;
     for (auto &x : c.extra) {
         if (x.compare(0, 3, "op ") != 0) continue;
         std::istringstream is(x.substr(3));
@@ -82,17 +83,17 @@ static Verdict check_c20(const Case &c) {
             std::size_t n;
             is >> n;
             parmcb::set_global_tbb_concurrency(n);
-            sets++;
+            o.sets++;
             std::size_t got = tbb::global_control::active_value(tbb::global_control::max_allowed_parallelism);
-            if (prev >= 0 && (long) n != prev) changed = true;
+            if (prev >= 0 && (long) n != prev) o.changed = true;
             prev = (long) n;
             current = n;
-            if (got != n) { S.note_case(c, changed); return Verdict::fail(base + "not-in-effect-after-set", "after set_global_tbb_concurrency(" + std::to_string(n) + ") the allowed parallelism is " + std::to_string(got)); }
+            if (got != n) return fail("not-in-effect-after-set", "after set_global_tbb_concurrency(" + std::to_string(n) + ") the allowed parallelism is " + std::to_string(got));
         } else if (op == "call") {
             std::string entry;
             is >> entry;
             if (current == 0) continue;
-            calls++;
+            o.calls++;
             std::atomic<long> reads(0), bad(0);
             boost::verif_observing_map<B::WeightMap, B::Edge> wm{bg.wmap(), &reads, &bad, current};
             std::list<std::list<B::Edge>> cycles;
@@ -101,19 +102,59 @@ static Verdict check_c20(const Case &c) {
                 else if (entry == "mcb_sva_fvs_trees_tbb") parmcb::mcb_sva_fvs_trees_tbb(bg.g, wm, std::back_inserter(cycles));
                 else parmcb::mcb_sva_iso_trees_tbb(bg.g, wm, std::back_inserter(cycles));
             } catch (const std::exception &e) {
-                S.note_case(c, changed);
-                return Verdict::fail(base + "exception", e.what());
+                return fail("exception", e.what());
             }
-            if (reads.load() > 0) during_call = true;
-            if (bad.load() > 0) { S.note_case(c, changed); return Verdict::fail(base + "not-in-effect-during-call", "inside " + entry + " the allowed parallelism differed from the last set value " + std::to_string(current) + " on " + std::to_string(bad.load()) + " observations"); }
+            if (reads.load() > 0) o.during_call = true;
+            if (bad.load() > 0) return fail("not-in-effect-during-call", "inside " + entry + " the allowed parallelism differed from the last set value " + std::to_string(current) + " on " + std::to_string(bad.load()) + " observations");
             std::size_t got = tbb::global_control::active_value(tbb::global_control::max_allowed_parallelism);
-            if (got != current) { S.note_case(c, changed); return Verdict::fail(base + "not-in-effect-after-call", "after " + entry + " the allowed parallelism is " + std::to_string(got) + ", last set " + std::to_string(current)); }
+            if (got != current) return fail("not-in-effect-after-call", "after " + entry + " the allowed parallelism is " + std::to_string(got) + ", last set " + std::to_string(current));
         }
     }
-    S.note_case(c, changed && during_call);
-    S.cls("sets", sets);
-    S.cls("library-calls", calls);
-    if (changed) S.cls("history-changes-the-value");
+    return o;
+}
+
+#include <sys/wait.h>
+static Verdict check_c20(const Case &c) {
+    Stats &S = stats();
+    int fd[2];
+    if (pipe(fd) != 0) { fprintf(stderr, "pipe failed\n"); _exit(2); }
+    fflush(nullptr);
+    pid_t pid = fork();
+    if (pid < 0) { fprintf(stderr, "fork failed\n"); _exit(2); }
+    if (pid == 0) {
+        close(fd[0]);
+        Out20 o = body_c20(c);
+        std::ostringstream ss;
+        ss << (o.ok ? 1 : 0) << "\n" << o.changed << " " << o.during_call << " " << o.sets << " " << o.calls << "\n" << o.key << "\n" << o.msg << "\n";
+        std::string t = ss.str();
+        ssize_t w = write(fd[1], t.data(), t.size());
+        (void) w;
+        close(fd[1]);
+        _exit(0);   // no atexit handlers / leak check in the child
+    }
+    close(fd[1]);
+    std::string buf;
+    char tmp[4096];
+    ssize_t r;
+    while ((r = read(fd[0], tmp, sizeof tmp)) > 0) buf.append(tmp, (size_t) r);
+    close(fd[0]);
+    int status = 0;
+    waitpid(pid, &status, 0);
+    Out20 o;
+    std::istringstream is(buf);
+    int okflag = -1;
+    is >> okflag >> o.changed >> o.during_call >> o.sets >> o.calls;
+    std::string rest;
+    std::getline(is, rest);
+    std::getline(is, o.key);
+    std::getline(is, o.msg);
+    bool child_ok = WIFEXITED(status) && WEXITSTATUS(status) == 0 && okflag >= 0;
+    S.note_case(c, o.changed && o.during_call);
+    S.cls("sets", o.sets);
+    S.cls("library-calls", o.calls);
+    if (o.changed) S.cls("history-changes-the-value");
+    if (!child_ok) return Verdict::fail("C20/set_global_tbb_concurrency/history/child-crashed", "the child process evaluating the history died (status " + std::to_string(status) + ")");
+    if (okflag == 0) return Verdict::fail(o.key, o.msg);
     return Verdict::pass();
 }
 
